@@ -263,6 +263,18 @@ impl Write for Sim {
         Ok(n)
     }
 
+    /// Like a socket (writev): one transport operation that takes bytes from all the slices, in
+    /// order, up to what this write accepts. (std's default would pass on the first slice only, so
+    /// an implementation that uses vectored writes would meet a transport no real one resembles.)
+    fn write_vectored(&mut self, bufs: &[io::IoSlice<'_>]) -> io::Result<usize> {
+        let total: usize = bufs.iter().map(|b| b.len()).sum();
+        if bufs.len() <= 1 || total == 0 {
+            return self.write(bufs.first().map(|b| &b[..]).unwrap_or(&[]));
+        }
+        let joined: Vec<u8> = bufs.iter().flat_map(|b| b.iter().copied()).collect();
+        self.write(&joined)
+    }
+
     fn flush(&mut self) -> io::Result<()> {
         let mut s = self.0.borrow_mut();
         if s.op_index() >= s.max_ops {
